@@ -903,6 +903,273 @@ theorem checksum_filter_loop (o : Opts) (keys : List Keylog.Key) (xs : List (Ite
   simp only [exportAll, List.flatMap_map]
   rfl
 
+/-- `-c` set / cleared in the option vector -/
+def argsC (args : Args) (b : Bool) : Args := { args with checksumTest := b }
+
+theorem optsOf_argsC (args : Args) (b : Bool) : optsOf (argsC args b) = (optsOf args).map fun o => optC o b := by
+  unfold optsOf argsC
+  simp only
+  cases Options.getPortMap Options.Src.bare args.mArg with
+  | error e => rfl
+  | ok pm =>
+    simp only
+    cases Options.serverPorts Options.Src.builtin Options.Src.pDefault args.pArg with
+    | error e => rfl
+    | ok ports => rfl
+
+/-- what `run()` hands to the writer is `exportAll` of the loop's final state, started from the `-s` keys -/
+theorem framesFrom_exportAll (prior : Export.Prior) (args : Args) (fk : Option (List Keylog.Key))
+    (xs : List (Item Keylog.Key)) (o : Opts) (ho : optsOf args = some o) :
+    framesFrom mask H P prior args fk xs info =
+      .ok (exportAll (Pipeline.tlsMachine H P info) (QuicPipeline.quicMachine mask H P info) o
+        (runItems (Pipeline.tlsMachine H P info) (QuicPipeline.quicMachine mask H P info) o ⟨fk.getD [], [], []⟩ xs)) := by
+  unfold optsOf at ho
+  unfold framesFrom runFrom body
+  rw [Props.C18.reset_is_fresh]
+  have hsp : (freshState : Export.Prior).serverPorts = Options.Src.builtin := rfl
+  rw [hsp]
+  cases hpm : Options.getPortMap Options.Src.bare args.mArg with
+  | error e => rw [hpm] at ho; cases ho
+  | ok pm =>
+    rw [hpm] at ho
+    simp only at ho ⊢
+    cases hp : Options.serverPorts Options.Src.builtin Options.Src.pDefault args.pArg with
+    | error e => rw [hp] at ho; cases ho
+    | ok ports =>
+      rw [hp] at ho
+      simp only [Option.some.injEq] at ho
+      subst ho
+      simp only [freshState, List.nil_append]
+
+theorem framesFrom_badOpts (prior : Export.Prior) (args : Args) (fk : Option (List Keylog.Key))
+    (xs : List (Item Keylog.Key)) (ho : optsOf args = none) :
+    ∃ e, ∀ (b : Bool) fk' xs' inf, framesFrom mask H P prior (argsC args b) fk' xs' inf = .error e := by
+  unfold optsOf at ho
+  cases hpm : Options.getPortMap Options.Src.bare args.mArg with
+  | error e =>
+    refine ⟨e, fun b fk' xs' inf => ?_⟩
+    unfold framesFrom runFrom body argsC
+    simp only [hpm]
+  | ok pm =>
+    rw [hpm] at ho
+    simp only at ho
+    cases hp : Options.serverPorts Options.Src.builtin Options.Src.pDefault args.pArg with
+    | ok ports => rw [hp] at ho; cases ho
+    | error e =>
+      refine ⟨e, fun b fk' xs' inf => ?_⟩
+      unfold framesFrom runFrom body argsC
+      rw [Props.C18.reset_is_fresh]
+      have hsp : (freshState : Export.Prior).serverPorts = Options.Src.builtin := rfl
+      simp only [hpm, hsp, hp]
+
+/-- **C11, whole program, what `run()` hands to the writer.** For every item list (as `Ingest` delivers it under `-c`:
+    every TCP / UDP frame with a non-empty payload carries the verdict of `calculate_checksum_tcp/udp`), key-log file and
+    option vector: the run with `-c` equals the run without `-c` on the items with the rejected frames removed. -/
+theorem export_checksum_filter_frames (prior : Export.Prior) (args : Args) (fk : Option (List Keylog.Key))
+    (xs : List (Item Keylog.Key)) :
+    framesFrom mask H P prior (argsC args true) fk xs info =
+      framesFrom mask H P prior (argsC args false) fk (xs.filter fun it => !rejected it) info := by
+  cases ho : optsOf args with
+  | none =>
+    obtain ⟨e, he⟩ := framesFrom_badOpts mask H P prior args fk xs ho
+    rw [he, he]
+  | some o =>
+    rw [framesFrom_exportAll mask H P info prior (argsC args true) fk xs (optC o true) (by rw [optsOf_argsC, ho]; rfl),
+      framesFrom_exportAll mask H P info prior (argsC args false) fk _ (optC o false) (by rw [optsOf_argsC, ho]; rfl)]
+    exact congrArg _ (checksum_filter_loop mask H P info o (fk.getD []) xs)
+
+/-! #### where the verdict bit comes from: dpkt's dissection, `calculate_checksum_tcp/udp`, RFC 1071 -/
+section Verdict
+open TLX.Dissect
+open TLX.Checksum (check L4)
+open TLX.Spec.Rfc1071 (verdict)
+open TLX.Lemmas.OnesComplement (toSpec Dissected)
+
+/-- the transport the tool found in a dissected frame -/
+def kindOf : Transport → Option Checksum.L4
+  | .tcp .. => some .tcp
+  | .udp .. => some .udp
+  | .other => none
+
+theorem tcpOk_len (seg : Bytes) (u : Unit) (h : tcpOk seg = .ok u) : 20 ≤ seg.length := by
+  unfold tcpOk at h
+  split at h
+  · cases h
+  · omega
+
+theorem view4_facts (d s b : Bytes) (k : Checksum.L4) (hk : kindOf (ip4View d s b).l4 = some k) :
+    (ip4View d s b).p = k.num ∧ k.off + 2 ≤ (ip4View d s b).seg.length := by
+  unfold ip4View at hk ⊢
+  simp only at hk ⊢
+  by_cases h0 : ip4Offset b ≠ 0
+  · rw [if_pos h0] at hk; cases hk
+  · rw [if_neg h0] at hk
+    by_cases h6 : u8 b 9 = 6
+    · rw [if_pos h6] at hk
+      cases ht : tcpOk (ip4Payload b) with
+      | error e => rw [ht] at hk; cases hk
+      | ok u =>
+        rw [ht] at hk
+        simp only [Dissect.tcpView, kindOf, Option.some.injEq] at hk
+        subst hk
+        exact ⟨h6, by have := tcpOk_len _ u ht; simp only [L4.off]; omega⟩
+    · rw [if_neg h6] at hk
+      by_cases h17 : u8 b 9 = 17
+      · rw [if_pos h17] at hk
+        by_cases hl : (ip4Payload b).length < 8
+        · rw [if_pos hl] at hk; cases hk
+        · rw [if_neg hl] at hk
+          simp only [udpView, kindOf, Option.some.injEq] at hk
+          subst hk
+          exact ⟨h17, by simp only [L4.off]; omega⟩
+      · rw [if_neg h17] at hk; cases hk
+
+theorem view6_facts (d s b : Bytes) (k : Checksum.L4) (hk : kindOf (ip6View d s b).l4 = some k) :
+    (ip6View d s b).p = k.num ∧ k.off + 2 ≤ (ip6View d s b).seg.length := by
+  unfold ip6View at hk ⊢
+  cases hc : ip6Chain b with
+  | error e => rw [hc] at hk; cases hk
+  | ok ch =>
+    rw [hc] at hk
+    simp only at hk ⊢
+    by_cases h0 : u8 b 6 = 44 ∧ ch.lastOff > 0
+    · rw [if_pos h0] at hk; cases hk
+    · rw [if_neg h0] at hk
+      by_cases h6 : ch.nxt = some 6
+      · rw [if_pos h6] at hk
+        cases ht : tcpOk ch.rest with
+        | error e => rw [ht] at hk; cases hk
+        | ok u =>
+          rw [ht] at hk
+          simp only [Dissect.tcpView, kindOf, Option.some.injEq] at hk
+          subst hk
+          exact ⟨by rw [h6]; rfl, by have := tcpOk_len _ u ht; simp only [L4.off]; omega⟩
+      · rw [if_neg h6] at hk
+        by_cases h17 : ch.nxt = some 17
+        · rw [if_pos h17] at hk
+          by_cases hl : ch.rest.length < 8
+          · rw [if_pos hl] at hk; cases hk
+          · rw [if_neg hl] at hk
+            simp only [udpView, kindOf, Option.some.injEq] at hk
+            subst hk
+            exact ⟨by rw [h17]; rfl, by simp only [L4.off]; omega⟩
+        · rw [if_neg h17] at hk; cases hk
+
+/-- dpkt makes a `TCP` / `UDP` instance only for protocol 6 / 17 and only of a buffer that holds the whole fixed header -/
+theorem dissect_l4_facts (buf : Bytes) (x : IpPkt) (k : Checksum.L4) (h : dissect buf = .ok (.ip x))
+    (hk : kindOf x.l4 = some k) : x.p = k.num ∧ k.off + 2 ≤ x.seg.length := by
+  unfold dissect dissectD at h
+  split at h
+  · cases h
+  · split at h
+    · cases h; exact view4_facts _ _ _ k hk
+    · cases h; exact view6_facts _ _ _ k hk
+    · cases h
+
+theorem check_ok_len (k : Checksum.L4) (v6 : Bool) (src dst : Bytes) (p : Nat) (seg : Bytes) (b : Bool)
+    (h : check k v6 src dst p seg = .ok b) : seg.length < (if v6 then 4294967296 else 65536) := by
+  by_cases hl : seg.length < (if v6 then 4294967296 else 65536)
+  · exact hl
+  · exfalso
+    unfold Checksum.check Checksum.pseudoHeader at h
+    cases v6 with
+    | false =>
+      simp only [Bool.false_eq_true, if_false] at hl
+      simp only [Bool.not_false, if_true, Checksum.toBytes2, if_neg hl, Checksum.toBytes1, bind, Except.bind] at h
+      split at h
+      · cases h
+      · rename_i _ _ heq
+        split at heq <;> cases heq
+    | true =>
+      simp only [if_true] at hl
+      simp only [Bool.not_true, Bool.false_eq_true, if_false, Checksum.toBytes4, if_neg hl, bind, Except.bind] at h
+      simp at h
+
+/-- **The verdict bit of a frame read under `-c` is the RFC 1071 receiver's verdict.** For a frame the tool dissects as
+    TCP or UDP over IPv4 / IPv6 (`x`: addresses, protocol and transport bytes as dpkt delivers them) with a non-empty
+    payload: `csumOk` — what `calculate_checksum_tcp/udp` returned — is true exactly when the independent RFC 1071
+    receiver (`Spec.Rfc1071.verdict`: pseudo-header, one's-complement sum over the transport bytes) accepts the segment;
+    a UDP/IPv4 datagram sent WITHOUT a checksum (field zero: neither right nor wrong) is rejected. -/
+theorem ingest_verdict_rfc1071 (tag us : Nat) (buf : Bytes) (p : Pkt) (i : Pipeline.Info)
+    (h : Ingest.framePkt true tag us buf = .ok (p, i)) (hl4 : p.l4 ≠ .other) (hpl : p.payload ≠ []) :
+    ∃ x k, dissect buf = .ok (.ip x) ∧ kindOf x.l4 = some k ∧
+      p.csumOk = decide (verdict (toSpec k) x.v6 x.src x.dst x.seg = .valid) := by
+  unfold Ingest.framePkt at h
+  cases hd : dissect buf with
+  | error e => simp [hd] at h
+  | ok dd =>
+    cases dd with
+    | notIp => simp only [hd] at h; cases h; exact absurd rfl hl4
+    | ip x =>
+      simp only [hd, if_true] at h
+      have hal := Lemmas.DissectAddr.dissect_addr_lengths _ buf x hd
+      have hev : x.src.length % 2 = 0 ∧ x.dst.length % 2 = 0 := by
+        obtain ⟨_, _, h1, h2⟩ := hal
+        rw [h1, h2]
+        cases x.v6 <;> simp
+      -- the verdict of `calculate_checksum_*` against RFC 1071, for the kind dpkt found
+      have core : ∀ (k : Checksum.L4) (pl : Bytes), kindOf x.l4 = some k → pl ≠ [] → ∀ v : Option Bool,
+          (if pl.isEmpty then (.ok none : Except Ingest.Err (Option Bool))
+            else match check k x.v6 x.src x.dst x.p x.seg with
+              | .ok b => .ok (some b)
+              | .error _ => .error .overflow) = .ok v →
+          v.getD true = decide (verdict (toSpec k) x.v6 x.src x.dst x.seg = .valid) := by
+        intro k pl hk hne v hv
+        have hne' : pl.isEmpty = false := by cases pl <;> simp_all
+        rw [hne'] at hv
+        simp only [Bool.false_eq_true, if_false] at hv
+        obtain ⟨hp, hf⟩ := dissect_l4_facts buf x k hd hk
+        cases hc : check k x.v6 x.src x.dst x.p x.seg with
+        | error e => rw [hc] at hv; cases hv
+        | ok b =>
+          rw [hc] at hv
+          cases hv
+          have hD : Dissected k x.v6 x.src x.dst x.seg := ⟨hev.1, hev.2, hf, check_ok_len _ _ _ _ _ _ b hc⟩
+          rw [hp] at hc
+          simp only [Option.getD_some]
+          by_cases hnc : verdict (toSpec k) x.v6 x.src x.dst x.seg = .noChecksum
+          · -- UDP / IPv4, field zero
+            have hku : k = .udp ∧ x.v6 = false := by
+              unfold verdict at hnc
+              split at hnc
+              · rename_i hz
+                cases hv6 : x.v6 with
+                | true => rw [hv6] at hnc; simp at hnc
+                | false => cases k <;> simp_all [toSpec]
+              · split at hnc <;> cases hnc
+            obtain ⟨rfl, hv6⟩ := hku
+            rw [hv6] at hD hc hnc ⊢
+            have := Props.C11.check_udp4_nochecksum x.src x.dst x.seg hD hnc
+            rw [show L4.udp.num = 17 from rfl] at hc
+            rw [this] at hc
+            cases hc
+            simp [toSpec, hnc] at hnc ⊢
+          · have := Props.C11.check_eq_rfc_verify k x.v6 x.src x.dst x.seg hD hnc
+            rw [this] at hc
+            exact (Except.ok.inj hc).symm
+      cases hv : Ingest.verdict x with
+      | error e => simp [hv] at h
+      | ok v =>
+        simp only [hv] at h
+        cases hx : x.l4 with
+        | other => rw [hx] at h; cases h; exact absurd rfl hl4
+        | tcp sp dp sq ak pl =>
+          rw [hx] at h
+          cases h
+          refine ⟨x, .tcp, rfl, by rw [hx]; rfl, ?_⟩
+          unfold Ingest.verdict at hv
+          rw [hx] at hv
+          exact core .tcp pl (by rw [hx]; rfl) hpl v hv
+        | udp sp dp pl =>
+          rw [hx] at h
+          cases h
+          refine ⟨x, .udp, rfl, by rw [hx]; rfl, ?_⟩
+          unfold Ingest.verdict at hv
+          rw [hx] at hv
+          exact core .udp pl (by rw [hx]; rfl) hpl v hv
+
+end Verdict
+
 end C11
 
 end TLX.Props.ExportInputs
